@@ -19,8 +19,8 @@ RULE = ('cases = corpus + random, three kinds: (range) get_first_range(header, m
         '_file_iter_range over a real file with offsets/lengths/streaming buffers 1..9 around the file size; (static) '
         'ombott.static_file on a real temporary file of length 0..40 (one case: streaming-buffer size + 5) with chosen '
         'mtime, GET/HEAD, Range headers from the RFC 7233 grammar (a-b, a-, -n, lists, leading zeros, values around the '
-        'length) and near misses (-0, reversed, 1-2-3, xbytes=, items=, spaces, +1, 1_0, unicode spaces, 4300/4301 '
-        'digits, junk), If-Modified-Since dates before/equal/after the mtime in three formats (mtimes include 0, 1, 2: the epoch date parses to 0), with parameters, empty '
+        'length) and near misses (-0, reversed, 1-2-3, xbytes=, items=, spaces, +1, 1_0, unicode spaces, superscript/circled digits that str.isdigit accepts and int() rejects, 4300/4301 '
+        'digits, junk), If-Modified-Since dates before/equal/after the mtime in three formats, under several local time zones of the server process (TZ + tzset: UTC, whole-hour, half-hour and DST zones; the oracle knows the instant it generated and does not use parse_date) (mtimes include 0, 1, 2: the epoch date parses to 0), with parameters, empty '
         'and garbage.  thorough adds every first range spec over numbers {"",0,1,L-1,L,L+1} x lengths 0..6 and every '
         '(length, offset, n, buffer) <= 7 for the iterator (exhaustive).  non-trivial = a Range header that reaches the '
         'numeric cases, an iterator run with >= 2 chunks, or a conditional request with a parsed date; distinct by case content')
@@ -72,15 +72,41 @@ def cps(s):
     return [ord(c) for c in s]
 
 
+class _tz:
+    """run with the process's local time zone set to case['tz'] (None: unchanged); restored afterwards"""
+
+    def __init__(self, case):
+        self.tz = case.get('tz')
+
+    def __enter__(self):
+        if self.tz is not None:
+            import time
+            self.old = os.environ.get('TZ')
+            os.environ['TZ'] = self.tz
+            time.tzset()
+
+    def __exit__(self, *a):
+        if self.tz is not None:
+            import time
+            if self.old is None:
+                os.environ.pop('TZ', None)
+            else:
+                os.environ['TZ'] = self.old
+            time.tzset()
+
+
+TZS = ['UTC0', 'MSK-3', 'EST5', 'IST-5:30', 'NPT-5:45', 'EST5EDT,M3.2.0,M11.1.0', 'CET-1CEST,M3.5.0,M10.5.0/3', 'AEST-10AEDT,M10.1.0,M4.1.0/3']
+
+
 def mtime_seen(case):
     """int(os.stat().st_mtime): st_mtime is the double sec + 1e-9 * nsec, so .999999999 rounds up to the next second
     (Last-Modified is formatted from the same double, so header and comparison stay consistent)"""
     return int(case['mtime'] + 1e-9 * case['frac'])
 
 
-def st(file, mtime=1700000000, frac=0, method='GET', rng=None, ims=None, delta=None):
+def st(file, mtime=1700000000, frac=0, method='GET', rng=None, ims=None, delta=None, tz=None):
     """ims: literal header or None; delta: if not None the header is a well-formed date mtime+delta (format in ims)"""
-    return dict(kind='static', file=file, mtime=mtime, frac=frac, method=method, range=rng, ims=ims, delta=delta)
+    return dict(kind='static', file=file, mtime=mtime, frac=frac, method=method, range=rng, ims=ims, delta=delta, tz=tz)
 
 
 def ims_header(case):
@@ -127,6 +153,18 @@ def corpus():
         st(d10, mtime=0, ims='rfc1123', delta=1), st(d10, mtime=1, ims='rfc1123', delta=-1), st(d10, mtime=1, ims='rfc1123', delta=0),
         st(d10, mtime=0, ims='rfc1123', delta=0, rng='bytes=0-3'), st(d10, mtime=0, ims='rfc1123', delta=0, method='HEAD'),
         st(d10, mtime=0, frac=500000000, ims='rfc1123', delta=0), st(d10, mtime=2, ims='rfc1123', delta=-2),
+        # the server's local zone must not matter: asctime dates carry no zone and are UTC (seeded change C17/5)
+        st(d10, mtime=1600000000, ims='asctime', delta=0, tz='MSK-3'), st(d10, mtime=1600000000, ims='asctime', delta=-3600, tz='EST5'),
+        st(d10, mtime=1600000000, ims='asctime', delta=-1, tz='MSK-3'), st(d10, mtime=1600000000, ims='asctime', delta=0, tz='IST-5:30'),
+        st(d10, mtime=1600000000, ims='rfc1123', delta=0, tz='MSK-3'), st(d10, mtime=1600000000, ims='rfc850', delta=0, tz='EST5'),
+        st(d10, mtime=1600000000, ims='asctime', delta=0, tz='EST5EDT,M3.2.0,M11.1.0'),
+        st(d10, mtime=1593600000, ims='asctime', delta=0, tz='CET-1CEST,M3.5.0,M10.5.0/3'),
+        st(d10, mtime=1600000000, ims='asctime', delta=0, tz='UTC0'),
+        # characters str.isdigit() accepts and int() rejects (seeded change C17/6): still 416, never an exception
+        st(d10, rng='bytes=0-\xb2'), st(d10, rng='bytes=\xb9-'), st(d10, rng='bytes=-\xb3'), st(d10, rng='bytes=\xb2-\xb3'),
+        st(d10, rng='bytes=1\xb2-5'), st(d10, rng='bytes=0-\xbd'),
+        dict(kind='range', header='bytes=0-\xb2', maxlen=10), dict(kind='range', header='bytes=\u2070-\u2079', maxlen=10),
+        dict(kind='range', header='bytes=\u2460-', maxlen=10), dict(kind='range', header='bytes=-\u2488', maxlen=10),
         st(d10, ims=''),                               # F20: an empty If-Modified-Since header crashed (TypeError)
         st(d10, ims='', rng='bytes=0-3'), st(d10, ims='garbage'), st(d10, ims=' ; x'), st(d10, ims=';'), st(d10, ims=' '),
         st(d10, ims='Thu, 01 Jan 2099 00:00:00 GMT'), st(d10, ims='Thu, 32 Jan 2099 00:00:00 GMT'),
@@ -177,7 +215,8 @@ def rnd_spec(rng, L):
 
 NEAR = ['-0', '5-2', '1-2-3', '-', '', 'a-b', '+1-+3', '-+2', '1_0-2_0', '0-1_', '_0-1', ' 1 - 3 ', '1 -', '- 2', '\t0-\n',
         '0x1-2', '1e1-', '1.0-2', '--2', '2--', '0-1;', '0 1', '\xa00-1', '\x850-', '\x1c0-1', '0-1\x00', ' 0-1', '0-1?',
-        '-' + '0' * 40 + '3', '1-+', '+-1', '-+', '0-+0', '+0-0', '00-00']
+        '-' + '0' * 40 + '3', '1-+', '+-1', '-+', '0-+0', '+0-0', '00-00',
+        '0-\xb2', '\xb9-', '-\xb3', '\xb2-\xb3', '1\xb9-5', '0-1\xb2', '\xbc-', '0-\u2074', '\u2460-\u2461', '-\u2082', '0-\u00b2\u00b3']
 NEAR_LONG = ['0' * 4300 + '-', '0' * 4301 + '-', '0-' + '1' * 4301, '-' + '1_' * 4299 + '1', '-' + '1_' * 4300 + '1']   # int() digit limit; slow in the model
 UNITS = ['bytes=', 'bytes=', 'bytes=', 'bytes=', 'bytes=', 'bytes=', 'xbytes=', 'Bytes=', 'BYTES=', 'items=', 'bytes =', 'bytes',
          'bytes:', ' bytes=', 'bytes= ', 'bytes==', 'bytes=bytes=', '', '=', 'none', 'a=b,bytes=']
@@ -224,7 +263,7 @@ def gen(rng, n):
             ims, delta = None, None
             q2 = rng.random()
             if q2 < 0.2:
-                ims = rng.choice(['rfc1123', 'rfc1123', 'rfc850', 'asctime', 'rfc1123+param', 'rfc1123+space', 'asctime+param'])
+                ims = rng.choice(['rfc1123', 'rfc1123', 'rfc850', 'asctime', 'asctime', 'rfc1123+param', 'rfc1123+space', 'asctime+param'])
                 delta = rng.choice([0, 0, 1, -1, 60, -60, 86400, -86400, 3600 * 24 * 400, -3600 * 24 * 400])
             elif q2 < 0.3:
                 ims = rng.choice(['', ' ', ';', 'garbage', 'Thu, 01 Jan 2099 00:00:00 GMT', 'Thu, 01 Jan 1980 00:00:00 GMT',
@@ -234,7 +273,8 @@ def gen(rng, n):
             if delta is not None and mtime < 100:
                 delta = rng.choice([0, 0, 1, -1, -mtime, 60, 86400])   # dates at and around the epoch
             frac = rng.choice([0, 0, 1, 500000000, 999999999])
-            yield st(file, mtime, frac, method, rg, ims, delta)
+            tz = rng.choice(TZS) if (ims is not None and rng.random() < 0.5) else None
+            yield st(file, mtime, frac, method, rg, ims, delta, tz)
 
 
 def thorough():
@@ -301,7 +341,8 @@ def run_impl(case):
         ss.parse_date = rec_pd
         ss.open = rec_open
         try:
-            resp = ombott.static_file(os.path.basename(path), tmpdir())
+            with _tz(case):
+                resp = ombott.static_file(os.path.basename(path), tmpdir())
         finally:
             ss.parse_date = real_pd
             if had_open:
@@ -363,7 +404,8 @@ def _parse_date_value(case):
     h = ims_header(case)
     if not h:
         return None
-    v = parse_date(h.split(';')[0].strip())
+    with _tz(case):
+        v = parse_date(h.split(';')[0].strip())
     return None if v is None else math.floor(v)
 
 
@@ -605,6 +647,8 @@ def shrink(case):
             yield dict(case, method='GET')
         if case['frac']:
             yield dict(case, frac=0)
+        if case.get('tz') not in (None, 'MSK-3'):
+            yield dict(case, tz='MSK-3')
 
 
 def _over_digit_limit(case, what, m):
